@@ -1,6 +1,7 @@
 import XcpProofs.FsDefs
 import XcpProofs.FsFrame
 import XcpProofs.NoClobberTree
+import XcpProofs.MultiNoClobber
 /-! # C08 — `--no-clobber` never alters anything that already exists in the destination
 
 Model slice: the walker's existence probe (`lstat` after the `fix:` commit) and `execOps`.
@@ -12,7 +13,8 @@ or something else creates the target meanwhile; the correspondence run checks it
 For ONE source tree the hypothesis is DISCHARGED (`XcpProofs/NoClobberTree.lean`): if the source's target exists nothing
 is emitted (`collision_emits_no_operation`), and if it is absent every operation of the walk executes on a target that
 does not exist at that moment — sequentially (`one_source_walk_is_a_fresh_run`) and in every interleaving of the
-concurrent model (`one_source_any_interleaving_preserves`) — so nothing that existed before is altered. -/
+concurrent model (`one_source_any_interleaving_preserves`) — so nothing that existed before is altered; likewise for
+SEVERAL sources with distinct base names whose operations interleave (`several_sources_any_interleaving_preserve`). -/
 namespace Xcp.C08
 
 open Xcp
@@ -123,5 +125,29 @@ theorem one_source_any_interleaving_preserves (fs : Fs) (c : Cfg) (hd : c.derefe
     (∀ op ∈ s.queue, ∀ t, opTarget op = some t → s.fs.lexists t = false) ∧
     (∀ op r, s.todo = op :: r → ∀ t, opTarget op = some t → s.fs.lexists t = false) :=
   noclobber_tree_any_interleaving fs c hd hn src tb srcNode fuel hwf hroot hsrc hsn hcop htb hne habs hpar hun1 hun2 hlen ls s hrun
+
+/-- SEVERAL sources in one run, their operations interleaved (`xcp -n -r s1 … sn DEST/`, distinct base names, all targets
+absent — an existing target makes the walker stop, `collision_emits_no_operation`): in EVERY reachable state of the
+concurrent model every initial entry is kept, the operation that completes next and the directory the walker creates next
+have targets that do not exist at that moment, and nothing has failed -/
+theorem several_sources_any_interleaving_preserve (fs : Fs) (c : Cfg) (dest : RPath) (items : List CopySrc) (fuel : Nat)
+    (hd : c.dereference = false) (hn : c.noClobber = true)
+    (hwf : FsEq fs fs)
+    (hdest : PlainTarget fs dest) (hdd : ∃ es, fs.root.getAt dest.names = some (.dir es))
+    (hfuel : fuel < walkFuel)
+    (hsrc : ∀ e ∈ items, PlainTarget fs e.path ∧ e.path.fileName = some e.base ∧
+      fs.root.getAt e.path.names = some e.node ∧ e.node.Copyable fuel ∧ e.path.names.length + walkFuel < 256)
+    (hnd : (items.map (·.base)).Nodup)
+    (hun : ∀ e ∈ items, ∀ e' ∈ items,
+      ¬ e.path.names <+: dest.names ++ [e'.base] ∧ ¬ dest.names ++ [e'.base] <+: e.path.names)
+    (habs : ∀ e ∈ items, fs.root.getAt (dest.names ++ [e.base]) = none)
+    (hlen : dest.names.length + 1 + walkFuel < 256)
+    (ls : List L0.Label) (s : L0.St)
+    (hrun : L0.run c (L0.init fs (multiOps fs c dest items)) ls = some s) :
+    Preserved fs.root s.fs.root ∧
+    (∀ op ∈ s.queue, ∀ t, opTarget op = some t → s.fs.lexists t = false) ∧
+    (∀ op r, s.todo = op :: r → ∀ t, opTarget op = some t → s.fs.lexists t = false) ∧
+    s.failed = false :=
+  multi_noclobber_any_interleaving fs c dest items fuel hd hn hwf hdest hdd hfuel hsrc hnd hun habs hlen ls s hrun
 
 end Xcp.C08
